@@ -453,7 +453,7 @@ func c18Families(tier string) []explore.Family {
 			r.Eval()
 			b0 = Render(c18.eng, t.src, c18BuildEnv(nil))
 			if b0.Err != nil || b0.Panic != nil {
-				panic("harness: generic representation fails: " + t.src + ": " + b0.String())
+				panic(explore.BaselineFailure{Msg: "harness: generic representation fails: " + t.src + ": " + b0.String()})
 			}
 			base[c.t] = b0
 		}
